@@ -105,6 +105,9 @@ RULE = ("mu in 10^U(-6,5) plus decimal/integer boundary means; n in {0,1,2, floo
         "in half of the scale-history cases the caller modifies in place every array the public API returned (data, "
         "spatial_counts, magnitude_counts, sum, what the result holds; zero / x3 / fill / normalise) after every tested step and "
         "tests again (bit-equal results required); rate array and catalog rows compared with their snapshots afterwards; "
+        "round 7: copies (copy / deepcopy / pickle) of forecast, catalog and catalog forecast before use, calls the library "
+        "rejects on the same objects before the judged ones, user subclasses of catalog and forecast, numpy.errstate raise + "
+        "3-digit decimal context, the observation being one of the forecast's own catalogs; "
         "(mean, var) of every dispersion (one ulp above the mean .. 2^58 x mean) for the float64 probability parameter. "
         "A case is non-trivial when n >= 1 and P(N = n) > 1e-12 (the inclusive/exclusive tail convention is visible), or "
         "for the catalog test when some synthetic size equals n_obs; distinct by (kind, mean, variance, n) / (sizes, n_obs)")
@@ -801,6 +804,13 @@ def _gen_seq_case(rng, tier):
     # the announced number of catalogs (constructor keyword n_cat): a list must announce its length (the class asserts it);
     # every other source may announce nothing, the right number, too few or too many
     seq["n_cat"] = rng.choice([None, "exact"]) if mode == "memory" else rng.choice([None, "exact", "small", "large", "large"])
+    # round-7 classes. (l) ONE OBJECT IN TWO ROLES: the observation IS one of the forecast's own catalog objects (a consistency
+    # experiment), also while the forecast filters what it hands out; (h) the forecast replaced by a copy of itself before the
+    # judged test; (j) the synthetic catalogs are instances of a user subclass; (k) numeric state
+    seq["obs_member"] = rng.randrange(ncat) if (mode == "memory" and rng.random() < 0.45) else None
+    seq["fc_copy"] = rng.choice(COPY_FORMS) if rng.random() < 0.25 else None
+    seq["user"] = mode in ("memory", "generator", "loader-store", "loader-nostore") and rng.random() < 0.25
+    seq["numeric"] = rng.random() < 0.3
     return dict(kind="catalog-seq", sizes=sizes, extras=extras, seq=seq, cfg=cfg, obs_pick=rng.randrange(6),
                 tag="catalog-seq")
 
@@ -859,6 +869,9 @@ def _catalog_seq_case(run, drv, pending, case):
         if cfg["filters"]:
             kw["filters"] = cfg["filters"][0] if cfg["as_str"] else list(cfg["filters"])
     tmpdir = None
+    if seq.get("user"):
+        CSEPCatalog = _user_classes()["cat"]
+        run.count("user-subclass:synthetic-catalogs")
     ann = _announced(seq.get("n_cat"), len(arrays))
     if seq.get("n_cat") is not None:
         kw = dict(kw, n_cat=ann)
@@ -884,6 +897,12 @@ def _catalog_seq_case(run, drv, pending, case):
                     kwf.setdefault("apply_filters", False)
                 fc = csep.load_catalog_forecast(path, region=reg[0], store=(seq["mode"] == "store"), name="gen", **kwf)
             obs = _catalog(nobs, reg, 77)
+            member = seq.get("obs_member")
+            if member is not None and isinstance(fc.catalogs, list) and member < len(fc.catalogs):
+                obs = fc.catalogs[member]                    # (l) the observation is a catalog OF the forecast
+                run.count("two-roles:observation-is-a-catalog-of-the-forecast" + (":filtered-on-the-fly" if (cfg and cfg["apply"]) else ""))
+            else:
+                member = None
             first = None
             if seq["pre"] == "ntest":
                 first = ce.number_test(fc, obs, verbose=False)
@@ -926,7 +945,21 @@ def _catalog_seq_case(run, drv, pending, case):
                         return
                     for j, c in enumerate(held):
                         mutate(j, c)
-            res = ce.number_test(fc, obs, verbose=False)
+            if seq.get("fc_copy"):
+                state = "fresh" if passes_before_test == 0 else "after-a-pass"
+                form = seq["fc_copy"]
+                if form == "pickle" and (seq.get("user") or seq["mode"].startswith("loader")):
+                    form = "deepcopy"      # local classes / functions of the harness cannot be named by pickle
+                fc = _copied(run, fc, form, f"catalog-forecast:{seq['mode']}:{state}")      # (h)
+            with _numeric_state(seq.get("numeric")):                                                 # (k)
+                res = ce.number_test(fc, obs, verbose=False)
+            if member is not None:
+                # n_obs is the number of events the observed catalog HOLDS (read from the caller's object after the call): the
+                # rows it had when handed over, or what is left after the forecast's own filters worked on it
+                nobs = int(obs.event_count)
+                if nobs not in (before[member], expect[member], first_sizes[member] if first_sizes else expect[member]):
+                    run.oracle_failure(case, f"the observed catalog (catalog #{member} of the forecast) holds {nobs} events after the "
+                                             f"test; it had {before[member]}, the forecast hands out {expect[member]}")
             res_live, res = res, _Frozen(res)
             _poke_result_list(run, res_live, POKES[(sum(case["sizes"]) + int(nobs)) % 4])
             try:
@@ -1034,7 +1067,12 @@ def _gen_hist(rng):
                 # an observed catalog without events, built without a data array
                 empty=rng.choice(["noarg", "list", "none"]) if rng.random() < 0.06 else None,
                 # the caller modifies in place what the public API returned, after every tested step
-                alias=rng.choice(POKES) if rng.random() < 0.5 else None, tag="public-hist")
+                alias=rng.choice(POKES) if rng.random() < 0.5 else None,
+                # round-7 classes: copies before use (forecast, catalog), user subclasses, rejected calls, numeric state
+                pre7=dict(copy=[rng.choice(COPY_FORMS) if rng.random() < 0.6 else None for _ in range(2)] if rng.random() < 0.3 else None,
+                          user=rng.random() < 0.25,
+                          reject=[rng.choice(REJECTS7) for _ in range(rng.randint(1, 2))] if rng.random() < 0.4 else None,
+                          numeric=rng.random() < 0.3), tag="public-hist")
 
 
 def _hist_forecast(case, reg):
@@ -1066,8 +1104,9 @@ def _hist_forecast(case, reg):
             data = big[::2, ::3]
         else:
             data = numpy.ascontiguousarray(base[::-1, ::-1])[::-1, ::-1]
-    f = GriddedForecast(start_time=datetime.datetime(2020, 1, 1), end_time=datetime.datetime(2021, 1, 1),
-                        data=data, region=region, magnitudes=mags, name="gen")
+    FC = _user_classes()["fc"] if (case.get("pre7") or {}).get("user") else GriddedForecast      # (j)
+    f = FC(start_time=datetime.datetime(2020, 1, 1), end_time=datetime.datetime(2021, 1, 1),
+           data=data, region=region, magnitudes=mags, name="gen")
     return f, data
 
 
@@ -1094,6 +1133,102 @@ def _as_var(var, vtype, mu=None):
     if vtype == "0d":
         return numpy.array(var)
     return float(var)
+
+
+# ----------------------------------------------------------------------------- round-7 classes
+COPY_FORMS = ["copy", "deepcopy", "pickle"]
+REJECTS7 = ["ntest-none", "nbd-badvar", "rates-type", "rates-outside-scaled", "getrates-len", "cat-filter-bad", "cat-filter-list-bad"]
+_USER7 = {}
+_UNSUPPORTED7 = set()
+
+
+def _user_classes():
+    """(j) user subclasses overriding documented accessors consistently, with __len__ / __bool__ (the repo's own tests use such
+    a catalog); `filter` hands back a NEW catalog when asked to (in_place=False) as the base class documents"""
+    if not _USER7:
+        from csep.core.catalogs import CSEPCatalog
+        from csep.core.forecasts import GriddedForecast
+
+        class UserCatalog(CSEPCatalog):
+            def get_number_of_events(self):
+                return int(super().get_number_of_events())
+
+            def get_magnitudes(self):
+                return numpy.array(super().get_magnitudes(), dtype=float)
+
+            def __len__(self):
+                return self.get_number_of_events()
+
+            def __bool__(self):
+                return self.get_number_of_events() > 0
+
+        class UserForecast(GriddedForecast):
+            def spatial_counts(self, cartesian=False):
+                return numpy.array(super().spatial_counts(cartesian=cartesian), copy=True)
+
+            def magnitude_counts(self):
+                return numpy.array(super().magnitude_counts(), copy=True)
+
+            def __len__(self):
+                return int(numpy.size(self.data))
+        _USER7.update(cat=UserCatalog, fc=UserForecast)
+    return _USER7
+
+
+def _copied(run, obj, form, what):
+    """(h) the object replaced by a copy of itself BEFORE use; a form the tree under test cannot make is left out (counted)"""
+    import copy, pickle
+    if not form or (form, what) in _UNSUPPORTED7:
+        return obj
+    if form == "pickle" and type(obj).__name__.startswith("User"):
+        form = "deepcopy"          # the harness's user subclasses are local classes: pickle cannot name them
+    try:
+        new = {"copy": copy.copy, "deepcopy": copy.deepcopy, "pickle": lambda o: pickle.loads(pickle.dumps(o))}[form](obj)
+        run.count(f"copy-before-use:{what}:{form}")
+        return new
+    except Exception as e:
+        _UNSUPPORTED7.add((form, what))
+        run.assumptions.append(f"{form} of a {what} is not supported by the tree under test ({type(e).__name__}): form left out")
+        run.count(f"copy-before-use:{what}:{form}:unsupported")
+        return obj
+
+
+def _rejected_call(run, kind, f, cat, reg):
+    """(i) a call on the SAME forecast / catalog that the library rejects; the caller catches the exception and carries on"""
+    from csep.core import poisson_evaluations as pe, binomial_evaluations as be
+    from csep.core.catalogs import CSEPCatalog
+    try:
+        with numpy.errstate(all="ignore"), contextlib.redirect_stdout(io.StringIO()):
+            if kind == "ntest-none":
+                pe.number_test(f, None)
+            elif kind == "nbd-badvar":
+                be.negative_binomial_number_test(f, cat, "23541")
+            elif kind == "rates-type":
+                f.target_event_rates("not a catalog", scale=True)
+            elif kind == "rates-outside-scaled":
+                arr = numpy.zeros(2, dtype=_DTYPE)
+                arr['longitude'] = [99.0, 0.05]; arr['latitude'] = 0.05; arr['magnitude'] = 4.2; arr['depth'] = 10.0
+                f.target_event_rates(CSEPCatalog(data=arr, region=reg[0]), scale=True)
+            elif kind == "getrates-len":
+                f.get_rates([0.05], [0.05, 0.05], [4.2])
+            elif kind == "cat-filter-bad":
+                cat.filter("magnitude >> 4.0")
+            else:
+                cat.filter(["magnitude >= 0.0", "bogus_column >= 1"])
+        run.count(f"rejected-call:{kind}:accepted")
+    except Exception:
+        run.count(f"rejected-call:{kind}:raised")
+
+
+def _numeric_state(on):
+    """(k) numpy.errstate(divide='raise', invalid='raise') + a 3-digit decimal context, or nothing"""
+    import decimal
+    st = contextlib.ExitStack()
+    if on:
+        st.enter_context(numpy.errstate(divide="raise", invalid="raise"))
+        ctx = st.enter_context(decimal.localcontext())
+        ctx.prec = 3
+    return st
 
 
 POKES = ["zero", "scale", "normalise", "fill"]
@@ -1166,6 +1301,9 @@ def _hist_case(run, drv, pending, case):
     n = case["n_in"] + (sum(extras) if extras else 0)
     cat = _catalog(case["n_in"], reg, case["cat_seed"], extras)
     cat_mags = numpy.array(cat.get_magnitudes(), dtype=float)      # bookkeeping of the harness, taken before any test
+    if (case.get("pre7") or {}).get("user") and not case.get("empty"):
+        cat = _user_classes()["cat"](data=numpy.array(cat.catalog, copy=True), region=reg[0])        # (j)
+        run.count("user-subclass:catalog+forecast")
     try:
         cat_bytes = cat.catalog.tobytes()
     except Exception:
@@ -1232,17 +1370,28 @@ def _hist_case(run, drv, pending, case):
         if not (1e-6 <= mu_ref <= 1e5):
             continue
         c = dict(case, step=step, mu=repr(mu_ref), n=n)
+        pre7 = case.get("pre7") or {}
+        for kind in pre7.get("reject") or []:
+            if not (kind.startswith("cat-filter") and case.get("empty")):
+                _rejected_call(run, kind, f, cat, reg)          # (i) rejected, caught; the legal calls follow
+        fx, cx = f, cat
+        if pre7.get("copy"):                                    # (h) the test sees copies; the originals go on in the history
+            fx = _copied(run, f, pre7["copy"][0], "gridded-forecast")
+            cx = _copied(run, cat, pre7["copy"][1], "catalog")
         try:
-            mu = float(f.event_count)
-            if nbd:
-                var = mu_ref * (1.0 + float(case["disp"][step]))
-                c["var"] = repr(float(_as_var(var, case["vtype"], mu_ref)))
-                var = float(c["var"])
-                res = be.negative_binomial_number_test(f, cat, _as_var(var, case["vtype"], mu_ref))
-            else:
-                var = None
-                res = pe.number_test(f, cat)
+            mu = float(fx.event_count)
+            with _numeric_state(pre7.get("numeric")):           # (k)
+                if nbd:
+                    var = mu_ref * (1.0 + float(case["disp"][step]))
+                    c["var"] = repr(float(_as_var(var, case["vtype"], mu_ref)))
+                    var = float(c["var"])
+                    res = be.negative_binomial_number_test(fx, cx, _as_var(var, case["vtype"], mu_ref))
+                else:
+                    var = None
+                    res = pe.number_test(fx, cx)
             d1, d2 = float(res.quantile[0]), float(res.quantile[1])
+            if pre7.get("numeric"):
+                run.count("numeric-state:errstate-raise+decimal-prec-3")
         except Exception as e:
             run.oracle_failure(c, f"exception {type(e).__name__}: {e}")
             return
